@@ -381,6 +381,14 @@ def run(spec, hang_ok=False):
                     break
                 time.sleep(0.0005)
             xfers[target].future.cancel()
+        elif how == 'manager_cancel':
+            # the manager as a whole is told to stop, from another user thread, while transfers are being started
+            m = getattr(w, 'mgr', None)
+            if m is not None:
+                try:
+                    m.shutdown(cancel=True, cancel_msg=cp.get('msg', 'bye'))
+                except BaseException as e:  # noqa
+                    log.add('cancel.raised', exc=repr(e))
         log.add('cancel.end', how=how, target=target)
         cancel_done.set()
 
@@ -416,6 +424,12 @@ def run(spec, hang_ok=False):
         from . import yieldinj
 
         windows = []
+        # (further pause windows, e.g. a second preemption inside the action the first window starts)
+        for w2 in ycfg.get('more_windows', ()):
+            l2 = w2['lineno'] if 'lineno' in w2 else yieldinj.find_line(w2['file'], w2['text'], w2.get('occ', 0))
+            if l2 is not None:
+                windows.append({'file': w2['file'], 'line': l2 + w2.get('line_offset', 0), 'nth': w2.get('nth', 0), 'action': 'pause',
+                                'name': w2.get('name') or str(w2.get('text', ''))[:40], 'wait': w2.get('wait', 0.3), 'rmw': False})
         wspec = ycfg.get('window')
         if wspec:
             if 'lineno' in wspec:
